@@ -71,6 +71,8 @@ type NodeRT struct {
 	// SelfCloseAt > 0: the monitor's own handler calls Close() from inside its
 	// SelfCloseAt-th callback (the "watch until X, then stop" pattern)
 	NoInit      bool // the monitor's handler registers no OnInitialize
+	hslot       *handlerSlot
+	hval        kcache.Handler
 	sf          *StatefulFilter
 	BeforeTraffic bool // created before anything was written to the server after its initial content
 	SelfCloseAt int
@@ -110,8 +112,11 @@ type H struct {
 	Overflow         bool
 	ExpectNoOverflow bool
 	ShareHB          bool
+	TwinSrv          *Server           // if set: the builder is reused, with this server as client, for a second controller
+	Twin             kcache.Controller // that second controller
 	NextStateful      bool // the next immediate filtered node gets a stateful user filter object (same pointer on every Refilter)
 	StartRV           int  // server version when the controller was started (nothing had been written after the initial content)
+	NextReuseHandlerOf *NodeRT // the next monitor made is given the Handler VALUE of this (finished) monitor
 	NextMonitorNoInit bool // the next monitor made gets a handler without OnInitialize
 	hb               kcache.HandlerBuilder
 	// OnCbAct is told about an API call a monitor callback is about to make
@@ -188,6 +193,18 @@ func (h *H) Start() {
 		detsim.Fail("infra:builder", "builder.Create: %v", err)
 	}
 	h.Ctrl = c
+	if h.TwinSrv != nil {
+		// the factory pattern: the same builder, pointed at another client, makes a
+		// second controller - a controller is configured by what the builder held
+		// when Create() was called, not by what it holds later
+		b.Client(h.TwinSrv)
+		t, err := b.Create()
+		if err != nil {
+			detsim.Fail("infra:builder", "second builder.Create: %v", err)
+		}
+		h.Twin = t
+		detsim.Count("probe:builder-reused-for-a-second-controller")
+	}
 }
 
 // Overflow detection is semantic, not textual: detsim counts every value
@@ -617,8 +634,30 @@ type DrainPoint struct {
 	K     int
 }
 
-func (h *H) handler(n *NodeRT) kcache.Handler {
+func (h *H) handler(first *NodeRT) kcache.Handler {
+	if r := h.NextReuseHandlerOf; r != nil && r.hval != nil {
+		// the SAME Handler value a finished monitor used, attached to a new one
+		h.NextReuseHandlerOf = nil
+		first.hslot, first.hval = r.hslot, r.hval
+		first.hslot.n = first
+		first.NoInit = r.NoInit // what the handler value was built with
+		detsim.Count("probe:handler-value-reused-by-a-later-monitor")
+		return first.hval
+	}
+	slot := &handlerSlot{n: first}
+	first.hslot = slot
+	hv := h.handlerFor(slot)
+	first.hval = hv
+	return hv
+}
+
+// handlerSlot: the monitor a handler value currently reports for.
+type handlerSlot struct{ n *NodeRT }
+
+func (h *H) handlerFor(slot *handlerSlot) kcache.Handler {
+	n := slot.n // (only read where the handler is BUILT; callbacks go through the slot)
 	enter := func(kind string, objs []Spec) int {
+		n := slot.n
 		if n.monBusy {
 			detsim.Fail("monitor-concurrent-callback", "%s: callback %s entered while another callback is executing", n.Name(), kind)
 		}
@@ -672,6 +711,7 @@ func (h *H) handler(n *NodeRT) kcache.Handler {
 		return len(n.MonLog) - 1
 	}
 	exit := func(i int) {
+		n := slot.n
 		n.MonLog[i].Exit = detsim.Steps()
 		n.monBusy = false
 	}
@@ -702,6 +742,7 @@ func (h *H) handler(n *NodeRT) kcache.Handler {
 	}
 	return hb.
 		OnInitialize(func(objs []metav1.Object) {
+			n := slot.n
 			specs := specsOf(objs)
 			for _, o := range objs {
 				if o == nil {
